@@ -252,6 +252,9 @@ where
         self.inner.rcu(|inner| {
             #[cfg(feature = "verif-hooks")]
             crate::verif::point("frim.remove");
+            // rcu() may run this closure more than once: forget what an
+            // earlier run found in a snapshot that did not get published.
+            found = None;
             let mut new = inner.deref().clone();
             if let Some(pos) = inner.iter().position(|(k, _v)| k == key) {
                 let (_, v) = new.remove(pos);
